@@ -22,6 +22,8 @@ MUTANTS = [
       "sub_events = [ev for ev in events if parser.trace_codes.get(ev.eventid, '') == 'PERF_STK_UHdr']",
       "sub_events = [ev for ev in events if parser.trace_codes.get(ev.eventid, '') == 'PERF_STK_UData']", "R3"),
     F("C20", "stale default for frames", PF, "    cs_frames: List = None\n", "    cs_frames: List = ()\n", "R3"),
+    F("C20", "the last real-fault-address code falls outside the selection", MA, "if 0x1320008 <= e.eventid <= 0x1320014]", "if 0x1320008 <= e.eventid < 0x1320014]", "R1"),
+    F("C20", "selection also picks the code after the group", MA, "if 0x1320008 <= e.eventid <= 0x1320014]", "if 0x1320008 <= e.eventid <= 0x1320018]", "R1"),
     N("C20", "explicit None else-branches", PF,
       "        if sub_events:\n            e.th_info = handle_thd_data(parser, sub_events)",
       "        if sub_events:\n            e.th_info = handle_thd_data(parser, sub_events)\n        else:\n            e.th_info = None"),
